@@ -61,16 +61,32 @@ Definition params_eqb (a b : N * N * N) : bool :=
 Definition mreq_eqb (a b : mreq) : bool :=
   list_eqb op_eqb (m_ops a) (m_ops b) && opt_eqb params_eqb (m_params a) (m_params b) && ou128_eqb (m_elec a) (m_elec b).
 
-(* what the harness records for one client: its name, the ModifyRequests its Modify stream
-   received (in order), and the number of t.Fatalf calls *)
-Record cobs := MkCObs { co_id : cid; co_stream : list mreq; co_fatals : N }.
+(* element-wise comparison of a list of model values with a list of observations *)
+Fixpoint all2b {A B} (f : A -> B -> bool) (l1 : list A) (l2 : list B) : bool :=
+  match l1, l2 with
+  | [], [] => true
+  | a :: t1, b :: t2 => f a b && all2b f t1 t2
+  | _, _ => false
+  end.
+
+(* what the harness records for one client.Client of a fluent client (one per successful Start): the
+   ModifyRequests its Modify stream received (in order), and the operations it had queued that
+   never reached a stream (queued after Stop, or before a Start that replaced it), by id *)
+Record iobs := MkIObs { io_stream : list mreq; io_unsent : list op_msg }.
+
+(* what the harness records for one fluent client: its name, its client.Clients oldest first, and
+   the number of t.Fatalf calls *)
+Record cobs := MkCObs { co_id : cid; co_incs : list iobs; co_fatals : N }.
 
 (* a case: the program, the per-client observations, and the (OpProto, EntryProto) pairs of
    the SProto steps *)
 Record fcase := MkCase { fc_prog : list step; fc_clients : list cobs; fc_protos : list (op_msg * entry_msg) }.
 
+Definition iobs_ok (i : incarnation) (o : iobs) : bool :=
+  list_eqb mreq_eqb (i_sent i) (io_stream o) && list_eqb op_eqb (flat_map m_ops (i_sendq i)) (io_unsent o).
+
 Definition cobs_ok (s : state) (o : cobs) : bool :=
-  list_eqb mreq_eqb (stream_of s (co_id o)) (co_stream o)
+  all2b iobs_ok (incs_of s (co_id o)) (co_incs o)
   && (c_fatals (cget (st_clients s) (co_id o)) =? co_fatals o).
 
 Definition fcase_ok (c : fcase) : bool :=
